@@ -6,6 +6,7 @@ from typing import TYPE_CHECKING
 from typing import Union
 
 from liquid import Mode
+from liquid import _verif
 from liquid.exceptions import FilterArgumentError
 from liquid.exceptions import LiquidSyntaxError
 from liquid.exceptions import LiquidTypeError
@@ -265,6 +266,7 @@ class Filter:
             func.validate(env, self.token, self.name, self.args)
 
     def evaluate(self, left: object, context: RenderContext) -> object:
+        if _verif.ENABLED: _verif.emit("filter", name=self.name, index=self.token.start_index, template=context.template.name)  # fmt: skip  # noqa: E501, E701
         func = context.filter(self.name, token=self.token)
         positional_args, keyword_args = self.evaluate_args(context)
         try:
@@ -276,6 +278,7 @@ class Filter:
             raise err
 
     async def evaluate_async(self, left: object, context: RenderContext) -> object:
+        if _verif.ENABLED: _verif.emit("filter", name=self.name, index=self.token.start_index, template=context.template.name)  # fmt: skip  # noqa: E501, E701
         func = context.filter(self.name, token=self.token)
         positional_args, keyword_args = await self.evaluate_args_async(context)
 
